@@ -89,7 +89,7 @@ ASSUMPTIONS = [
     "termination is judged by a step bound that is 2.3x-3.5x the measured worst case (27 line events per character "
     "+ 50 per token) on 0..1200 character inputs; class info:steps-over-half-of-bound counts calls that came near it",
 ]
-BUDGET_S = {"quick": 100, "thorough": 900}
+BUDGET_S = {"quick": 110, "thorough": 900}
 
 SEC_PATH = os.sep + os.path.join("secsgem", "secs") + os.sep
 
@@ -852,9 +852,9 @@ def plan(tier, seed):
     q = tier == "quick"
     tasks = [("enum", {}), ("names", {})]
     n_clean, n_raw, n_mut, n_rand = (6, 2, 4, 4) if q else (96, 48, 64, 96)
-    per_rt = 800 if q else 1500
-    per_mut = 800 if q else 1500
-    per_rand = 1200 if q else 1500
+    per_rt = 520 if q else 1500
+    per_mut = 520 if q else 1500
+    per_rand = 800 if q else 1500
     for i in range(n_clean):
         tasks.append(("rt", {"mode": "clean", "shard": i, "n": per_rt}))
     for i in range(n_raw):
